@@ -24,6 +24,12 @@ void main() { zc = 1; }
 """
 
 
+IDIOMS = ["%(d)s = %(e)s;", "%(e)s = %(d)s;", "%(e)s += %(d)s;", "%(e)s -= 3;", "%(e)s++;", "%(e)s--;", "++%(e)s;",
+          "if (%(e)s == %(d)s) r = 1;", "if (%(e)s != 0) r = 1;", "if (%(e)s < %(d)s) r = 1;", "%(e)s |= %(d)s;", "%(e)s &= 0x0ff0;", "%(e)s ^= %(d)s;",
+          "%(e)s = %(d)s + 1;", "%(d)s = %(e)s + %(e)s;", "%(d)s = %(e)s >> 8;", "%(d)s = %(e)s << 8;", "%(e)s = 0;", "%(e)s = 1000;", "%(e)s = -1;",
+          "%(e)s = ss;", "ss = %(e)s;", "ss += %(e)s;", "if (ss >= %(e)s) r = 1;"]
+
+
 def mark_split(p, rng, how):
     """declare a random subset of the generated program's variables in split-port memory"""
     q = "superchip" if how == "superchip" else "bank1"
@@ -60,7 +66,10 @@ def run(chk):
                             for hi in (0, 1):
                                 qs.append((mn, 3, n, eight, off, hi, 0))
                     for kind in (4, 5):
-                        qs.append((mn, kind, n, 0, 0, 0, 0))
+                        for eight in (0, 1):
+                            for off in (0, 2):
+                                for hi in (0, 1):
+                                    qs.append((mn, kind, n, eight, off, hi, 0))
             for i in range(0, len(qs), 1500):
                 batch = qs[i:i + 1500]
                 r = h.req("asmmatrix %s %s | %s" % (scheme, hx(STUB), " | ".join("%s,%d,%s,%d,%d,%d,%d" % (q[0], q[1], hx(q[2]), q[3], q[4], q[5], q[6]) for q in batch)))
@@ -75,7 +84,29 @@ def run(chk):
                     if ma.split(" ")[0] != real:
                         chk.tie_broken("asm(): model and code disagree on a split-port operand", {"query": q, "scheme": scheme, "real": real, "model": ma})
         chk.coverage["exhaustive_port_matrix"] = True
-    # ---- regression exemplars with expected values / fault freedom ----
+    # ---- idiom sweep: every access shape x element width x index kind x scheme, executed for port faults ----
+    for how, q, defs in (("4K", "superchip", []), ("3E", "bank1", ["__3E__=1"]), ("3EP", "bank1", ["__3E_PLUS__=1"])):
+        for width in ("short", "char"):
+            for idx in ("X", "Y", "2", "i"):
+                for idi in IDIOMS:
+                    d = "s" if width == "short" else "c"
+                    src = "%s %s arr[4]; %s %s ss; %s s; char c; char r; char i;\nvoid main() { X = 1; Y = 3; i = 2; %s }\n" % (
+                        q, width, q, width, width, idi % {"e": "arr[%s]" % idx, "d": d})
+                    for level in (0, 1):
+                        r = h.compile(src, level, defines=defs)
+                        if r["status"] != "ok":
+                            chk.count("idiom_rejected"); break
+                        env, init, ports, regions = prog.layout(r["vars"], how)
+                        okl, _ = prog.load(m, "c17i", r, env=env, ports=ports)
+                        if not okl:
+                            chk.count("idiom_unloadable"); continue
+                        res = prog.run(m, "c17i", mem=dict(init), fuel=5000)
+                        chk.case(key=(src, level, how), nontrivial=True)
+                        chk.count("idiom_runs")
+                        if res["stop"] != "done" or res.get("faults", 0):
+                            chk.fail("split-port-idiom-fault", "%s: %d accesses through the wrong port of split-port memory (-O%d, %s)" % (
+                                src.splitlines()[1], res.get("faults", 0), level, how),
+                                {"source": src, "level": level, "scheme": how, "defines": defs, "feature": "atari2600", "stop": res["stop"], "faults": res.get("faults", 0)})
     # ---- programs on split-port memory ----
     nstates = chk.scale(5, 16)
     for i in range(chk.scale(160, 3000)):
